@@ -377,11 +377,33 @@ pub fn d18_object(h: &HitObject) -> bool {
     }
 }
 
+/// D26: spinner / hold whose end time `start + duration`, as the encoder computes it, is
+/// outside the parse limits
+pub fn d26_object(h: &HitObject) -> bool {
+    let end = match &h.kind {
+        HitObjectKind::Spinner(s) => h.start_time + s.duration,
+        HitObjectKind::Hold(s) => h.start_time + s.duration,
+        _ => return false,
+    };
+    !(end.abs() <= 2147483647.0)
+}
+
 pub fn lost_class(h: &HitObject) -> &'static str {
     if d18_object(h) {
         "D21"
+    } else if d26_object(h) {
+        "D26"
     } else {
         ""
+    }
+}
+
+/// D26 for [TimingPoints] lines: the line of the sample point collected at such an end time
+fn d26_timing_line(map: &Beatmap, line: &str) -> &'static str {
+    let t = line.split(',').next().and_then(|f| f.trim().parse::<f64>().ok());
+    match t {
+        Some(t) if !(t.abs() <= 2147483647.0) && map.hit_objects.iter().any(d26_object) => "D26",
+        _ => "",
     }
 }
 
@@ -487,7 +509,13 @@ pub fn oracle(map: &mut Beatmap, input: &str, origin: &str, out: &mut Out) -> Op
                 _ => Beatmap::parse_hit_objects(&mut state, l).is_ok(),
             });
             let obj_idx = body_counts[7].wrapping_sub(1);
-            let cls = if k == 7 { map.hit_objects.get(obj_idx).map_or("", lost_class) } else { "" };
+            let cls = if k == 7 {
+                map.hit_objects.get(obj_idx).map_or("", lost_class)
+            } else if k == 5 {
+                d26_timing_line(map, l)
+            } else {
+                ""
+            };
             match res {
                 Err(p) => out.fail("", &desc, &format!("{} parser panicked on encoded line {:?}: {}", HEADERS[k], l, p)),
                 Ok(false) => out.fail(cls, &desc, &format!("{} parser rejects encoded line {:?}", HEADERS[k], l)),
@@ -613,7 +641,26 @@ pub fn oracle_text(text: &str, origin: &str, out: &mut Out) {
     oracle(&mut m, text, origin, out);
 }
 
+/// the recorded inputs of the findings made while mechanising T02b / T02d (fixed texts: they go
+/// through the `enc` correspondence and both oracles on every run)
+pub const RECORDED_INPUTS: [(&str, &str); 4] = [
+    ("recorded-D26-spinner", "osu file format v14\n\n[HitObjects]\n256,192,-3112.53,12,0,2147483647,0:0:0:0:\n"),
+    ("recorded-D26-hold", "osu file format v14\n\n[General]\nMode: 3\n\n[HitObjects]\n100,192,-3112.53,128,0,2147483647:0:0:0:0:\n"),
+    (
+        "recorded-D27-near-one",
+        "osu file format v14\n\n[TimingPoints]\n0,500,4,1,0,100,1,0\n0,-50,4,1,0,100,0,0\n100,400,4,1,0,100,1,0\n100,-100.00000000000001,4,1,0,100,0,0\n",
+    ),
+    (
+        "recorded-D28-near-time",
+        "osu file format v14\n\n[TimingPoints]\n0,500,4,1,0,100,1,0\n0,-50,4,1,0,100,0,0\n\n[HitObjects]\n256,192,0.00000000000000001,1,0,0:0:0:50:\n",
+    ),
+];
+
 pub fn generate(tier: &str, seed: u64, out: &mut Out) {
+    for (o, t) in RECORDED_INPUTS {
+        enc_case(t, o, out);
+        oracle_text(t, o, out);
+    }
     // correspondence: slider-free stream (plus the slider stream once the models are connected)
     texts(tier, seed, false, false, |t, o| enc_case(t, o, out));
     if SLIDERS_IN_MODEL {
